@@ -43,12 +43,12 @@ Qed.
 Theorem end_to_end_prefix :
   late s = false ->
   (exists rest, W s = all_read rs ++ rest) /\
-  (resetErr s = None -> saw_eof rs = true -> all_read rs = W s /\ finishedWriting s = true).
+  (saw_eof rs = true -> all_read rs = W s /\ finishedWriting s = true).
 Proof.
   intros HL. pose proof (delivered_good HL) as HG. split.
   - apply reads_prefix_only. exact HG.
-  - intros HR He.
-    destruct (sender_frames_consistent sid0 rsa swin cwin ops HL) as (_ & _ & HF). specialize (HF HR).
+  - intros He.
+    destruct (sender_frames_consistent sid0 rsa swin cwin ops HL) as (_ & _ & HF).
     assert (HF' : forall f, In f (delivered evs) -> f_fin f = true -> f_end f = zlen (W s)).
     { intros f Hf Hfin. apply (HF f (net f Hf) Hfin). }
     split.
@@ -58,17 +58,16 @@ Proof.
 Qed.
 
 Theorem complete_if_covered_e2e n :
-  resetErr s = None ->
+  late s = false ->
   (forall i, 0 <= i < zlen (W s) -> exists f, In f (delivered evs) /\ f_off f <= i < f_end f) ->
   (exists f, In f (delivered evs) /\ f_fin f = true) ->
   zlen (W s) <= n ->
   let rs' := snd (rrun rcv0 (evs ++ [ERead n])) in
   all_read rs' = W s /\ saw_eof rs' = true /\ finishedWriting s = true.
 Proof.
-  intros HR Hcov Hfin Hn.
-  pose proof (reset_none_late sid0 rsa swin cwin ops HR) as HL.
+  intros HL Hcov Hfin Hn.
   pose proof (delivered_good HL) as HG.
-  destruct (sender_frames_consistent sid0 rsa swin cwin ops HL) as (_ & _ & HF). specialize (HF HR).
+  destruct (sender_frames_consistent sid0 rsa swin cwin ops HL) as (_ & _ & HF).
   assert (HF' : forall f, In f (delivered evs) -> f_fin f = true -> f_end f = zlen (W s)).
   { intros f Hf Hfin'. apply (HF f (net f Hf) Hfin'). }
   destruct (complete_if_covered (W s) evs n HG HF' Hcov Hfin Hn) as [A B].
